@@ -109,9 +109,10 @@ struct Cfg {
 	bool fifo;                 // FIFO flag of the base channel
 	std::vector<bool> honest;
 	int byz;                   // index of the Byzantine party or -1
+	int byz_slots;             // number of slots a faulty sender uses (agreement bound without FIFO)
 	std::vector<BMsg> script;  // messages the Byzantine party may emit (event Z k emits script[k])
 	std::vector<std::vector<Ev> > prog;   // per party program
-	Cfg() : n(3), t(0), fifo(true), byz(-1) {}
+	Cfg() : n(3), t(0), fifo(true), byz(-1), byz_slots(1) {}
 };
 
 struct Deliv { int sender; std::string value; std::string chan; };
@@ -222,16 +223,30 @@ struct World {
 		}
 		else
 		{
-			// Byzantine sender: agreement with every other honest party on the k-th delivery (FIFO) / on the single slot (no FIFO)
+			// Byzantine (or library-faulty) sender.  FIFO channel: the k-th delivery is slot k, so all honest parties must agree
+			// on it.  Without FIFO the slot of a delivery is not observable: then the number of distinct values delivered by
+			// anybody is bounded by the number of slots the sender used (cfg.byz_slots).
 			size_t k = prev.size();
-			for (int o = 0; o < cfg.n; o++)
+			if (cur_fifo(p))
 			{
-				if (o == p || !cfg.honest[o]) continue;
-				std::vector<std::string> ov;
-				for (size_t i = 0; i < delivered[o].size(); i++)
-					if (delivered[o][i].sender == s && delivered[o][i].chan == c) ov.push_back(delivered[o][i].value);
-				if (ov.size() > k && ov[k] != v)
-				{ fail("rbc/agreement", "parties " + drv::str(p) + " and " + drv::str(o) + " delivered different values (" + v + " vs " + ov[k] + ") for delivery #" + drv::str(k + 1) + " of Byzantine sender " + drv::str(s)); return; }
+				for (int o = 0; o < cfg.n; o++)
+				{
+					if (o == p || !cfg.honest[o]) continue;
+					std::vector<std::string> ov;
+					for (size_t i = 0; i < delivered[o].size(); i++)
+						if (delivered[o][i].sender == s && delivered[o][i].chan == c) ov.push_back(delivered[o][i].value);
+					if (ov.size() > k && ov[k] != v)
+					{ fail("rbc/agreement", "parties " + drv::str(p) + " and " + drv::str(o) + " delivered different values (" + v + " vs " + ov[k] + ") for delivery #" + drv::str(k + 1) + " of faulty sender " + drv::str(s)); return; }
+				}
+			}
+			else
+			{
+				std::set<std::string> vals;
+				for (int o = 0; o < cfg.n; o++)
+					for (size_t i = 0; cfg.honest[o] && i < delivered[o].size(); i++)
+						if (delivered[o][i].sender == s && delivered[o][i].chan == c) vals.insert(delivered[o][i].value);
+				if (vals.size() > (size_t)cfg.byz_slots)
+				{ fail("rbc/agreement", drv::str(vals.size()) + " different values were delivered for the " + drv::str(cfg.byz_slots) + " slot(s) of faulty sender " + drv::str(s)); return; }
 			}
 			if (std::find(prev.begin(), prev.end(), v) != prev.end())
 			{ fail("rbc/duplicate-delivery/byz", "party " + drv::str(p) + " delivered value " + v + " of Byzantine sender twice"); return; }
@@ -345,7 +360,12 @@ struct World {
 				bool got = false;
 				// DeliverFrom calls Deliver internally; deliveries that Deliver hands to DeliverFrom are buffered per sender,
 				// so the oracle judges what DeliverFrom *returns*
-				try { got = rbc[p]->DeliverFrom(m, (size_t)i, aiounicast::aio_scheduler_roundrobin, 0); }
+				try
+				{
+					got = rbc[p]->DeliverFrom(m, (size_t)i, aiounicast::aio_scheduler_roundrobin, 0);
+					// a DeliverFrom with a real time-out loops: what the first pass buffered is returned by the next pass
+					if (!got) { aiou[p]->want = -1; got = rbc[p]->DeliverFrom(m, (size_t)i, aiounicast::aio_scheduler_roundrobin, 0); }
+				}
 				catch (std::exception &ex) { fail("rbc/exception", std::string("DeliverFrom threw: ") + ex.what()); }
 				mcenv::cur = nullptr;
 				aiou[p]->want = -1;
